@@ -139,7 +139,7 @@ def crun (cfg : Cfg) (w : CWN) (input : Raw) : CWN × COut :=
     match w.rems, w.remKeys with
     | some d, some rk =>
       match removeDead d rk (goneKeys old input) with
-      | none => (w, .keyError)
+      | none => (w, .keyError)       -- unreachable (C10_concrete_refines); the half-deleted state is not modelled
       | some (d0, rk0) =>
         match keysLoop cfg old input d0 rk0 with
         | (d1, rk1, some out) => (⟨some input, some d1, some rk1⟩, .out (.dict out))
